@@ -34,6 +34,9 @@ pub struct Case {
     /// finite sources only: this many frames are still index-coded after the source reports exhaustion
     #[serde(default)]
     pub tail: u64,
+    /// the adaptor is built over a borrow of the source (`source.by_ref().buffered(..)`) instead of owning it
+    #[serde(default)]
+    pub borrowed: bool,
 }
 
 const PREFILL_BASE: u64 = 20_000;
@@ -48,7 +51,16 @@ fn run_typed<F: Coded>(c: &Case, st: &mut Stats) -> CheckResult {
         slots[(c.start + i) % c.cap] = F::code(PREFILL_BASE + i as u64);
     }
     let rb = Bounded::from_raw_parts(c.start, c.prefill, slots);
-    let mut buffered = probe.buffered(rb);
+    if c.borrowed {
+        let mut probe = probe;
+        st.class("source borrowed (by_ref) rather than owned");
+        drive::<F, _>(probe.by_ref().buffered(rb), c, st, &counters)
+    } else {
+        drive::<F, _>(probe.buffered(rb), c, st, &counters)
+    }
+}
+
+fn drive<F: Coded, S: Signal<Frame = F>>(mut buffered: dasp_signal::Buffered<S, Vec<F>>, c: &Case, st: &mut Stats, counters: &Counters) -> CheckResult {
     // nothing has run empty on demand yet: building the adaptor pulls nothing
     ensure!(counters.pulls() == 0, "buffered() pulled {} source frames at construction (before anything was read)", counters.pulls());
     let ex0 = buffered.is_exhausted();
@@ -225,7 +237,7 @@ pub fn case_strategy() -> impl Strategy<Value = Case> {
             any::<bool>(),
             prop_oneof![2 => Just(0u64), 1 => 1u64..12],
         )
-            .prop_map(move |(start, prefill, src_len, int_frames, ops, drain, tail)| Case { cap, start, prefill, src_len, int_frames, ops, drain, tail })
+            .prop_map(move |(start, prefill, src_len, int_frames, ops, drain, tail)| Case { cap, start, prefill, src_len, int_frames, ops, drain, tail, borrowed: (tail + start as u64) % 3 == 1 })
     })
 }
 
@@ -250,7 +262,7 @@ pub fn run(ctx: &mut Ctx) {
                 for src in 0..=max_src {
                     for ops in &strings {
                         let k = cases.len();
-                        cases.push(Case { cap, start, prefill, src_len: Some(src), int_frames: k % 2 == 0, ops: ops.clone(), drain: true, tail: (k % 3) as u64 });
+                        cases.push(Case { cap, start, prefill, src_len: Some(src), int_frames: k % 2 == 0, ops: ops.clone(), drain: true, tail: (k % 3) as u64, borrowed: k % 4 == 1 });
                     }
                 }
             }
